@@ -102,6 +102,17 @@ func runC16(ctx *Ctx) {
 		_ = os.WriteFile(filepath.Join(dir, fmt.Sprintf("gen%03d.jst", i)), d, 0o644)
 		cnt++
 	}
+	// quoted parameters with escapes (every parse unescapes them) and hostile names
+	for i := 0; i < ctx.Len(24, 200); i++ {
+		var d []byte
+		if i%2 == 0 {
+			d = []byte(fmt.Sprintf("JSIGHT 0.3\nINFO\n  Title \"The \\\"catalog\\\" no %d \\\\ x\"\n  Version \"v\\\"%d\\\"\"\nSERVER @s\n  BaseUrl \"https://h%d/\\\\path\"\nGET \"/p%d/\\\"q\\\"\"\n  Query \"a=\\\"%d\\\"\"\n  {\"a\": 1}\n  200 any\n", i, i, i, i, i))
+		} else {
+			d = hostileDoc(r)
+		}
+		_ = os.WriteFile(filepath.Join(dir, fmt.Sprintf("esc%03d.jst", i)), d, 0o644)
+		cnt++
+	}
 	rounds := ctx.Len(3, 30)
 	cmd := exec.Command(bin, dir, fmt.Sprint(rounds))
 	cmd.Env = append(os.Environ(), "GORACE=halt_on_error=0 history_size=3")
